@@ -575,6 +575,16 @@ func (c *client) receive(r io.Reader) (err error) {
 	if header.CellBlockMeta != nil {
 		cellsLen = header.CellBlockMeta.GetLength()
 	}
+	if m, ok := rpc.(*multi); ok && cellsLen == 0 {
+		// The results of a MultiResponse are checked against the request
+		// while the cellblocks are deserialized. Do that also when there
+		// are no cellblocks, a response that doesn't match the request
+		// can't be dispatched to the calls.
+		if _, err = m.DeserializeCellBlocks(response, nil); err != nil {
+			err = RetryableError{fmt.Errorf("failed to decode the response: %s", err)}
+			return
+		}
+	}
 	if d, ok := rpc.(canDeserializeCellBlocks); cellsLen > 0 && ok {
 		if cellsLen > size {
 			err = RetryableError{fmt.Errorf("failed to decode the response: "+
